@@ -581,8 +581,9 @@ def build_init_states(scn, system):
     out = []
     spec = scn["system"]
     for c in range(scn["n_chain"]):
-        r = __import__("random").Random(derive_seed(scn.get("init_seed", scn["run_seed"]), "init", scn.get("init_offset", 0) + c))
-        pos = zoo.start_position(spec, r, variant=scn.get("init_offset", 0) + c)
+        var = scn["init_variants"][c] if scn.get("init_variants") else c
+        r = __import__("random").Random(derive_seed(scn.get("init_seed", scn["run_seed"]), "init", var))
+        pos = zoo.start_position(spec, r, variant=var)
         mode = scn.get("init", "state")
         if scn["sampler"] == "generic":
             if mode == "dict":
